@@ -176,6 +176,9 @@ func (x *Explorer) Run(entry *ssa.Function) *ExploreStats {
 						st.Inconclusive = append(st.Inconclusive, ev.Label+": "+ev.Msg)
 					case "cut":
 						st.Cuts = append(st.Cuts, ev.Label+": "+ev.Msg)
+						if ev.Tape != nil && os.Getenv("GOSYM_SHOW_CUTS") != "" && len(st.Cuts) < 4 {
+							fmt.Printf("CUT %s draws=%v\n", ev.Msg, ev.Tape.Draws)
+						}
 					}
 				}
 				if (x.MaxPaths > 0 && st.Paths >= x.MaxPaths) || (x.Deadline > 0 && time.Since(t0) > x.Deadline) {
